@@ -720,7 +720,7 @@ fn well_indented(t: &[u8], ind: usize) -> bool {
   lines_of(t)[1..].iter().all(|l| lead(l) >= ind)
 }
 
-/// input class of the recorded finding: the snippet itself begins with at least `d > 0` spaces
+/// input class of the repaired defect e39e245: the snippet itself begins with at least `d > 0` spaces
 fn first_line_begins_with(t: &[u8], d: usize) -> bool {
   d > 0 && lead(lines_of(t)[0]) >= d
 }
@@ -909,12 +909,14 @@ pub fn oracle(ctx: &Ctx, rng: &mut Rng, o: &mut Out) {
   o.oracle("relative-indent-done", true, json!({"cases": n_shift}));
   o.oracle("verbatim-done", true, json!({"cases": n_verb}));
   // ---- replay of the Lean witnesses (`AGV.C07.blank_line_counterexample`,
-  // `under_indented_counterexample`, `first_line_counterexample`) on the real code: outside the quantifier the no-op
-  // clause really fails, exactly as the model says
+  // `under_indented_counterexample`, `first_line_kept_end_to_end`) on the real code: outside the
+  // quantifier the no-op clause really fails, exactly as the model says; the third entry is the
+  // regression witness of the repaired first-line defect
   let witnesses: [(&str, &str, &str); 3] = [
     ("  {\n\n  }", "{\n\n  }", "{\n  \n  }"),
     ("    {\n  a\n    }", "{\n  a\n    }", "{\n      a\n    }"),
-    ("  `  a\n  b`", "  a\n  b", "a\n  b"),
+    // regression witness of the repaired defect e39e245 (`first_line_kept_end_to_end`)
+    ("  `  a\n  b`", "  a\n  b", "  a\n  b"),
   ];
   for (src, node_text, model_says) in witnesses {
     let grep = SupportLang::JavaScript.ast_grep(src);
